@@ -457,7 +457,7 @@ def clique_roles(t):
 
 def rule_max_clique(F, R):
     c = F.crate('max_clique_gen')
-    t = c.ithir.get('max_clique_gen::main') if c else None
+    t = lowered(c, c.ithir.get('max_clique_gen::main')) if c else None
     if t is None:
         R.violation('max_clique_gen::main / L / anchor', 'UNDECIDABLE', 'max_clique_gen::main not found'); return
     CRATE_FOR_CLOSURES[0] = c
@@ -653,7 +653,7 @@ def graph_roles(c):
     G = 'random_graph_gen::'
     out = {}
     # generate_graph(num_vertices, num_edges, undirected): outer loop (i, v1) over enumerate(vertices); inner (j, v2) or v2
-    t = c.ithir.get(G + 'generate_graph')
+    t = lowered(c, c.ithir.get(G + 'generate_graph'))
     if t is not None:
         r = {}
         pv = param_vars(t)
@@ -778,6 +778,17 @@ def coloured_shadow(c, t, r):
                     return (q['var'], old)
     return None
 
+_LOWERED = {}
+def lowered(c, t):
+    """the function with iterator chains that feed a `for` loop or an `extend` written out as loop nests (facts.iter_chains_as_loops)"""
+    if t is None: return None
+    if id(t) not in _LOWERED:
+        import facts as _facts
+        nb = _facts.iter_chains_as_loops(t['body'], c)
+        u = dict(t); u['body'] = nb
+        _LOWERED[id(t)] = (t, u if any(isinstance(x, dict) and x.get('synthetic') == 'iter-chain' for x in _facts._all_nodes(nb)) else t)
+    return _LOWERED[id(t)][1]
+
 def unrolled(t):
     """the function with its loops over spelt-out arrays written out (`for end in [&e.0, &e.1] {..}` is its two copies)"""
     if t is None: return None
@@ -815,7 +826,7 @@ def rule_random_graph(F, R):
         R.violation('random_graph_gen / L / anchor', 'UNDECIDABLE', 'crate not found'); return
     G = 'random_graph_gen::'
     ROLES = graph_roles(c)
-    t = c.ithir.get(G + 'generate_graph')
+    t = lowered(c, c.ithir.get(G + 'generate_graph'))
     roles = ROLES.get('generate_graph', {})
     if t is None:
         R.violation(G + 'generate_graph / L / anchor', 'UNDECIDABLE', 'generate_graph not found')
